@@ -1110,7 +1110,7 @@ pub fn c08(ctx: &mut Ctx) {
             todo.push(s.to_vec());
         }
     });
-    let shapes = [(1usize, 1usize), (1, 3), (2, 2), (3, 2), (2, 5), (16, 16)];
+    let shapes = [(1usize, 1usize), (1, 3), (2, 2), (3, 2), (2, 5), (16, 16), (1, 1000), (7, 65_536), (65_536, 3)];
     let mut n = 0u64;
     for k in 1..=3usize {
         for &(bs, bc) in &shapes {
